@@ -49,6 +49,8 @@ func c16Plan(toks []string) map[int]error {
 		p := strings.SplitN(t, ":", 2)
 		if p[1] == "s" {
 			plan[atoi(p[0])] = filepath.SkipDir
+		} else if p[1] == "a" {
+			plan[atoi(p[0])] = filepath.SkipAll
 		} else {
 			plan[atoi(p[0])] = walkErr{atoi(p[1][1:])}
 		}
@@ -240,7 +242,9 @@ func c16Paths(items []string) (all []string) {
 }
 
 var c16Patterns = []string{"/r/*", "/r/*/*", "/r/a*", "/r/?", "/r/??", "/r/[a-b]*", "/r/[^a]*", "/r/*/x.go", "/r/*/*.t?t", "/r/a", "/r/nope", "/r/*/[a-c]?",
-	"/r/*/*/*", "/*/a", "/r/[a-c][a-c]", "/r/*.go", "/r/a/*", "/r/x.go/*", "/r/*b*", "/*", "/r/", "/r/*/"}
+	"/r/*/*/*", "/*/a", "/r/[a-c][a-c]", "/r/*.go", "/r/a/*", "/r/x.go/*", "/r/*b*", "/*", "/r/", "/r/*/",
+	// a literal ".." after a wildcard segment: every segment before it is looked up, nothing is resolved lexically
+	"/r/*/../a*", "/r/*/../*/x.go", "/*/../r/*", "/r/*/./*"}
 
 func c16Random(r *corr.Rand, tier string) []corr.Case {
 	n := 350
@@ -271,7 +275,7 @@ func c16Random(r *corr.Rand, tier string) []corr.Case {
 			root := corr.Pick(rr, roots)
 			plan := ""
 			for j := 0; j < rr.Intn(4); j++ {
-				act := "s"
+				act := corr.Pick(rr, []string{"s", "s", "a"})
 				if rr.Chance(35) {
 					act = fmt.Sprintf("e%d", 1+rr.Intn(3))
 				}
@@ -296,7 +300,7 @@ func c16Exhaustive(tier string) []corr.Case {
 		for _, root := range []string{"/r", "/r/b", "/r/a", "/r/d", "/nope", "/", "/r/./b", "/r//b", "/r/b/.", "/r/b/", "/r/d/../b", "/r/b/y/..", "/r/"} {
 			l := []string{"case " + st, "tree " + strings.Join(items, " "), "walk " + h(root)}
 			for i := 0; i < 10; i++ {
-				for _, a := range []string{"s", "e1"} {
+				for _, a := range []string{"s", "e1", "a"} {
 					l = append(l, fmt.Sprintf("walk %s %d:%s", h(root), i, a))
 					for j := i + 1; j < 10; j++ {
 						l = append(l, fmt.Sprintf("walk %s %d:%s %d:s", h(root), i, a, j), fmt.Sprintf("walk %s %d:%s %d:e2", h(root), i, a, j))
@@ -306,7 +310,7 @@ func c16Exhaustive(tier string) []corr.Case {
 			cases = append(cases, corr.Case{Lines: l})
 		}
 		l := []string{"case " + st, "tree " + strings.Join(items, " ")}
-		for _, p := range c16Patterns {
+		for _, p := range append(append([]string{}, c16Patterns...), "/r/b/../*", "/r/b/y/../x", "/r/b/../b/*") { // (/r/b and /r/b/y are directories of this tree)
 			l = append(l, "glob "+h(p))
 		}
 		cases = append(cases, corr.Case{Lines: l})
